@@ -270,6 +270,9 @@ def derive_events_real(seg, kind):
         elif x[0] == "topen-raised" and cur is not None:
             evs[cur][0] = "a" if (kind == "paramiko" and x[1] == "ScrapliAuthenticationFailed") else "r"
             cur = None
+        elif x[0] == "stallfire" and cur is not None:
+            evs[cur][0] = "s"       # the timeout decorator closed the transport during this step (whatever class finally surfaced)
+            cur = None
         elif x[0] == "actend" and cur is not None:
             if x[2] == "ScrapliTimeout":
                 evs[cur][0] = "s"
@@ -277,6 +280,15 @@ def derive_events_real(seg, kind):
                 evs[cur][0] = "d"
             cur = None
     return evs
+
+
+def new_loop():
+    """an event loop whose own descriptors (selector, self-pipe) and resolver thread (default executor, used by
+    getaddrinfo) exist before any baseline is taken -- they belong to the loop, not to a connection"""
+    loop = asyncio.new_event_loop()
+    loop.run_until_complete(asyncio.sleep(0))
+    loop.run_until_complete(loop.getaddrinfo("127.0.0.1", 9))
+    return loop
 
 
 def run_case(case, loop):
@@ -374,9 +386,10 @@ def oracle_case(mod, ck, case, results, fresh):
 def run_all(ck, mod):
     """thorough tier entry: every real case through the oracle and the (coarse) model correspondence"""
     from vlib.common import run_model
-    loop = asyncio.new_event_loop()
-    # warm the loop (selector + self-pipe descriptors exist before any baseline is taken)
-    loop.run_until_complete(asyncio.sleep(0))
+    import logging
+    logging.getLogger("paramiko").addHandler(logging.NullHandler())     # its worker thread reports socket errors at close on stderr otherwise
+    logging.getLogger("paramiko").propagate = False
+    loop = new_loop()
     fresh_cache = {}
     batch = []
     t0 = time.time()
@@ -428,8 +441,7 @@ def run_all(ck, mod):
 
 
 def replay(case, mod):
-    loop = asyncio.new_event_loop()
-    loop.run_until_complete(asyncio.sleep(0))
+    loop = new_loop()
     try:
         if case["kind"] != "system":
             servers().port(case["kind"])
